@@ -31,16 +31,20 @@ struct Rec { off: u64, n: usize, header: u8, data: Vec<u8> }
 fn run_script(steps: &[Value]) -> Option<String> {
     let dir = tempfile::tempdir().ok()?;
     let path = dir.path().join("seg");
-    let size = 4 * 1024 * 1024;
+    // optional first step ["size", n]: segment size (default 4 MiB)
+    let size = steps.first().filter(|st| st[0].as_str() == Some("size")).and_then(|st| st[1].as_u64()).unwrap_or(4 * 1024 * 1024) as usize;
     let mut w = Writer::<1>::create(&path, size, START).ok()?;
     let mut r = Reader::<1>::open(&path, Some(w.flushed_offset())).ok()?;
     let mut log: Vec<Rec> = vec![];
     let mut synced_upto = START;
+    // records cut off by set_len whose bytes may still be in the file (set_len only writes a marker at the cut)
+    let mut stale: Vec<Rec> = vec![];
     for (i, st) in steps.iter().enumerate() {
         let op = st[0].as_str().unwrap_or("");
         match op {
-            "append" => {
-                let len = st[1].as_u64().unwrap_or(0) as usize;
+            "append" | "append_to_end" => {
+                // append_to_end: the data length is chosen so that the UNCOMPRESSED record ends st[1] bytes before the segment end
+                let len = if op == "append" { st[1].as_u64().unwrap_or(0) as usize } else { size.saturating_sub(w.write_offset() as usize + 9 + st[1].as_u64().unwrap_or(0) as usize) };
                 let seed = st[2].as_u64().unwrap_or(0);
                 let mut rng = Rng::new(seed);
                 let data: Vec<u8> = (0..len).map(|k| if st[3].as_bool().unwrap_or(false) { (k % 7) as u8 } else { rng.next() as u8 }).collect();
@@ -53,7 +57,8 @@ fn run_script(steps: &[Value]) -> Option<String> {
                     }
                     Ok(Err(e)) => {
                         let expect_off = log.last().map(|l| l.off + l.n as u64).unwrap_or(START);
-                        if (expect_off as usize) + 9 + len + 64 <= size { return Some(format!("step {i}: append of {len} bytes at offset {expect_off} failed although it fits the segment of {size} bytes: {e}")); }
+                        // C19: an append whose UNCOMPRESSED record (8-byte head + 1-byte header + data) fits must not be refused
+                        if (expect_off as usize) + 9 + len <= size { return Some(format!("step {i}: append of {len} bytes at offset {expect_off} failed although its uncompressed record fits the segment of {size} bytes: {e}")); }
                     }
                     Err(p) => return Some(format!("step {i}: append panicked: {p}")),
                 }
@@ -69,6 +74,7 @@ fn run_script(steps: &[Value]) -> Option<String> {
                     if let Err(e) = w.set_len(off) { return Some(format!("step {i}: set_len failed: {e}")); }
                     // known finding: a long-lived reader's read-ahead cache is not invalidated when ALREADY FLUSHED records are truncated
                     if cuts_flushed && kf_open("KF-C18-truncate-flushed") { r = Reader::<1>::open(&path, Some(w.flushed_offset())).ok()?; }
+                    stale.extend(log[k..].iter().cloned());
                     log.truncate(k);
                     synced_upto = synced_upto.min(off);
                     if w.write_offset() != off { return Some(format!("step {i}: after set_len({off}) write_offset is {}", w.write_offset())); }
@@ -108,7 +114,15 @@ fn run_script(steps: &[Value]) -> Option<String> {
                 drop(w);
                 w = match Writer::<1>::open(&path, size, START) { Ok(w) => w, Err(e) => return Some(format!("step {i}: reopen failed: {e}")) };
                 let expect = log.last().map(|l| l.off + l.n as u64).unwrap_or(START);
-                if w.write_offset() != expect { return Some(format!("step {i}: reopened writer resumes at {} but the last intact record ends at {expect}", w.write_offset())); }
+                if w.write_offset() != expect {
+                    // NOT a violation of "resumes right after the last intact record": a new record that ends exactly where a cut-off
+                    // record began makes that (physically intact) record the next one of the recovery scan (DESIGN A.5, seen). The
+                    // script's model of the log ends here.
+                    let mut e = expect;
+                    while let Some(x) = stale.iter().find(|x| x.off == e) { e = x.off + x.n as u64; }
+                    if w.write_offset() == e { return None; }
+                    return Some(format!("step {i}: reopened writer resumes at {} but the last intact record ends at {expect}", w.write_offset()));
+                }
                 r = Reader::<1>::open(&path, Some(w.flushed_offset())).ok()?;
             }
             _ => {}
@@ -144,6 +158,10 @@ pub fn search(_item: &str, seed: u64, _hint: &Value) -> Option<(Value, String)> 
     for s in sizes { for comp in [false, true] {
         scripts.push(vec![json!(["compress", comp]), json!(["append", 60000, 9, true]), json!(["append", s, 5, !comp]), json!(["append", 3, 6, false]), json!(["sync"]), json!(["read", 1]), json!(["readseq", 1]), json!(["read", 2]), json!(["iter"]), json!(["reopen"]), json!(["readseq", 1])]);
     }}
+    // C19: records that end within a few bytes of the segment end, compressible and not, compression on and off
+    for comp in [true, false] { for slack in 0..24usize { for compressible in [false, true] {
+        scripts.push(vec![json!(["size", 4096]), json!(["compress", comp]), json!(["append", 3000, 11, false]), json!(["append_to_end", slack, 12, compressible]), json!(["sync"]), json!(["iter"]), json!(["reopen"]), json!(["iter"])]);
+    }}}
     for _ in 0..300 {
         let n = 3 + rng.below(10) as usize;
         let mut s = vec![];
